@@ -39,6 +39,8 @@ RULE = ("direction x addressing (subindex / complete access) x out mailbox "
 OUT_OFF, IN_OFF = 0x1000, 0x1100
 SIZES = (24, 32, 64, 128)
 IDX, SUB, CA_IDX = 0x2000, 3, 0x3000
+VAR_IDX = 0x2100
+NEIGHBOUR = b"neighbour-entry!"
 
 
 # ------------------------------------------------------------------ repairs
@@ -298,7 +300,9 @@ def objects(case):
     old = payload(n, seed, 0x80)
     h1 = (n + 1) // 2
     return {(IDX, SUB): old, (CA_IDX, 0): b"\2", (CA_IDX, 1): old[:h1],
-            (CA_IDX, 2): old[h1:]}
+            (CA_IDX, 2): old[h1:],
+            # a variable whose value lives at subindex 0, with a neighbour
+            (VAR_IDX, 0): old, (VAR_IDX, 1): NEIGHBOUR}
 
 
 def execute(ch, case, mod, k):
@@ -336,6 +340,8 @@ def execute(ch, case, mod, k):
         term.mbx_in_off, term.mbx_in_sz = IN_OFF, case["in"]
         new = payload(case["L"], case["seed"], 0)
         index, sub = (CA_IDX, None) if case["ca"] else (IDX, SUB)
+        if case.get("sub0"):
+            index, sub = VAR_IDX, 0
         if case["dir"] == "w":
             coro = term.sdo_write(new, index, sub)
         else:
@@ -352,7 +358,8 @@ def execute(ch, case, mod, k):
             outcome = ("return",)
             result = fut.result()
         held = server.ca_value(CA_IDX, 1) if case["ca"] \
-            else server.objects[IDX, SUB]
+            else server.objects[index, sub]
+        neighbour = bytes(server.objects[VAR_IDX, 1])
         lo, hi = OUT_OFF, OUT_OFF + case["out"]
         beyond = [(a, len(d)) for a, d in t.write_log
                   if a < hi and a + len(d) > lo and (a < lo or
@@ -364,6 +371,7 @@ def execute(ch, case, mod, k):
                 bytes(result).hex() if isinstance(result, (bytes, bytearray))
                 else repr(result)[:80]),
             held=held.hex(),
+            neighbour_ok=neighbour == NEIGHBOUR,
             errors=[list(e) for e in server.protocol_errors],
             aborts=[list(a) for a in server.aborts],
             toggles=list(server.toggles),
@@ -411,6 +419,9 @@ def judge(case, obs):
     if obs["open_transfer"]:
         bad.append(("terminal still waits for segments", "transfer finished",
                     "open"))
+    if not obs.get("neighbour_ok", True):
+        bad.append(("another entry of the object changed", "untouched",
+                    "changed"))
     if case["dir"] == "w":
         if obs["held"] != new:
             bad.append(("terminal does not hold the written bytes", new,
@@ -537,6 +548,12 @@ def cases(ctx):
                             out.append(dict(dir=d, ca=ca, out=o, L=L,
                                             style=st, seed=ctx.seed,
                                             **{"in": i}))
+                            # the same transfer addressed to subindex 0
+                            if not ca and st == 0 and \
+                                    (not ctx.quick or b == others[0]):
+                                out.append(dict(dir=d, ca=ca, out=o, L=L,
+                                                style=st, seed=ctx.seed,
+                                                sub0=True, **{"in": i}))
     return out
 
 
